@@ -33,7 +33,7 @@ ANCHORS = [
     ("tangelo/linq/target/target_cirq.py", "expectation_value_from_prepared_state", "cirq native expectation"),
     ("tangelo/linq/target/backend.py", "get_variance,get_standard_error,_get_variance_from_frequencies", "variance / standard error"),
 ]
-REQUIRED = {"live_observations_total": 50, "cirq_native": 72, "cirq_freq_route_exact": 48, "generic_statevector_loop": 100, "generic_sampled": 8, "cirq_sampled": 16, "variance_exact": 50, "std_error_sampled": 10, "desired_meas_result": 20, "sympy": 3}
+REQUIRED = {"operator_and_backend_reuse": 100, "live_observations_total": 50, "cirq_native": 72, "cirq_freq_route_exact": 48, "generic_statevector_loop": 100, "generic_sampled": 8, "cirq_sampled": 16, "variance_exact": 50, "std_error_sampled": 10, "desired_meas_result": 20, "sympy": 3}
 BUDGET = {"quick": 240, "thorough": 2400}
 TOL = 1e-8
 
@@ -80,6 +80,7 @@ def cases(tier, seed):
     # shot numbers beyond the sampler's internal chunk size (10**7): samples are accumulated over several chunks
     out = [{"sub": "bigshots", "i": i} for i in range(1 if tier == "quick" else 4)] + out
     out.append({"sub": "repo_tests", "tier": tier})
+    out += [{"sub": "reuse", "i": i} for i in range(40 if tier == "quick" else 2000)]
     return out
 
 
@@ -276,6 +277,50 @@ def run_sympy(case, ctx):
         ctx.nontrivial(("sympy", gates, sorted(map(repr, terms.items()))))
 
 
+def run_reuse(case, ctx):
+    """One backend object and one operator object over a history of calls: the operator is modified in place between evaluations
+    (+= term, *= scalar, direct assignment into .terms) and the circuit changes too; every value is compared with the dense one."""
+    from tangelo.linq import get_backend
+    from tangelo.toolboxes.operators import QubitOperator
+    rng, pr, s = case_rng(ctx.seed, "C02", "reuse", case["i"])
+    n = pr.randint(1, 4)
+    be = get_backend("cirq")
+    terms = gen.random_qubit_terms(pr, n, pr.randint(1, 4))
+    op = gen.to_qubit_operator(terms)
+    gates = gen.random_gates(pr, n, pr.randint(1, 8), hostile=0.2)
+    circ = gen.to_circuit(gates, n_qubits=n)
+    hist = []
+    for step in range(pr.randint(3, 7)):
+        what = pr.choice(["same", "iadd", "imul", "assign", "new_circuit", "add_gate"])
+        if what == "iadd":
+            extra = gen.to_qubit_operator(gen.random_qubit_terms(pr, n, pr.randint(1, 2), identity=False))
+            op += extra
+        elif what == "imul":
+            op *= pr.choice([-2.0, 0.5, 3])
+        elif what == "assign":
+            t = tuple((q, pr.choice("XYZ")) for q in sorted(pr.sample(range(n), pr.randint(1, n))))
+            op.terms[t] = pr.uniform(-1.5, 1.5)
+        elif what == "new_circuit":
+            gates = gen.random_gates(pr, n, pr.randint(1, 8), hostile=0.2)
+            circ = gen.to_circuit(gates, n_qubits=n)
+        elif what == "add_gate":
+            g = None
+            while g is None:
+                g = gen.random_gate(pr, n, hostile=0.2)
+            gates = list(gates) + [g]
+            circ.add_gate(gen.to_gate(g))
+        hist.append(what)
+        cur = gen.terms_of(op)
+        psi = refsim.run(gates, n)
+        want = dense_expectation(cur, psi, n)
+        got = be.get_expectation_value(op, circ)
+        ctx.check("operator_and_backend_reuse", abs(complex(got) - want) < 1e-7 * (1 + sum(abs(c) for c in cur.values())),
+                  "expectation value on a re-used backend with an operator object modified in place differs from <psi|H|psi>",
+                  lambda: {"n": n, "history": hist, "terms_now": [[list(map(list, t)), c] for t, c in cur.items()], "gates": gates, "got": got, "expected": want})
+    ctx.nontrivial(("reuse", n, repr(hist), case["i"]))
+    ctx.sample({"sub": "reuse", "n": n, "history": hist})
+
+
 def run_oneterm(case, ctx):
     """get_expectation_value_from_frequencies_oneterm / variance on arbitrary histograms vs direct parity sums."""
     from tangelo.linq.target.backend import get_expectation_value_from_frequencies_oneterm as ev1, \
@@ -336,4 +381,4 @@ def run_repo_tests(case, ctx):
 
 
 def run_case(case, ctx):
-    {"pair": run_pair, "sympy": run_sympy, "oneterm": run_oneterm, "bigshots": run_bigshots, "repo_tests": run_repo_tests}[case["sub"]](case, ctx)
+    {"pair": run_pair, "sympy": run_sympy, "oneterm": run_oneterm, "bigshots": run_bigshots, "reuse": run_reuse, "repo_tests": run_repo_tests}[case["sub"]](case, ctx)
